@@ -278,4 +278,23 @@ def DS.toScalar (d : DS) : DS :=
           value := v.value.bind (fun x => (x[i]?).map (fun t => [t])) })),
     intNorm := false }
 
+/-! ### Protocol parsing shared by the drivers (I/O glue, not used in theorems) -/
+
+def parseOList? (s : String) : Option (List (Option Rat)) :=
+  if s = "[]" then some [] else (s.splitOn ",").mapM parseORat?
+
+def showOList (l : List (Option Rat)) : String :=
+  if l.isEmpty then "[]" else ",".intercalate (l.map showORat)
+
+/-- varspec = name:f|i:lb:ub:val -/
+def parseVar? (s : String) : Option Var :=
+  match s.splitOn ":" with
+  | [n, t, lb, ub, v] => do
+    let lb ← parseOList? lb
+    let ub ← parseOList? ub
+    let isInt ← (if t = "i" then some true else if t = "f" then some false else none)
+    let val ← (if v = "_" then some none else (parseRatList? v).map some)
+    some ⟨n, isInt, lb, ub, val⟩
+  | _ => none
+
 end GV.C02
